@@ -112,8 +112,9 @@ def run(ctx):
     # ---- 2./3. binding
     backends = ["memory", "pebble"] if thorough else ["memory"]
     new_state = [False, True]
-    n_conf = {"r1": 150, "r0": 150, "r3": 100, "r20": 30} if thorough else {"r1": 22, "r0": 22, "r3": 14, "r20": 5}
-    n_enum = {"r1": 60, "r0": 60, "r3": 40, "r20": 0} if thorough else {"r1": 6, "r0": 6, "r3": 4, "r20": 0}
+    n_conf = {"r1": 100, "r0": 100, "r3": 60, "r20": 20} if thorough else {"r1": 22, "r0": 22, "r3": 14, "r20": 5}
+    n_enum = {"r1": 25, "r0": 25, "r3": 15, "r20": 0} if thorough else {"r1": 6, "r0": 6, "r3": 4, "r20": 0}
+    enum_backends = {"r1": ["memory"], "r0": backends, "r3": ["memory"], "r20": ["memory"]}
     total_conf = total_enum = 0
     for i, sc in enumerate(SCEN):
         txt, c = cfg_text(sc, faithful, interrupts=True, mbt=True)
@@ -132,7 +133,7 @@ def run(ctx):
             total_enum += len(bs)
             if bs:
                 res = engine(ctx, binary, "TestPruneEnum",
-                                     {"consts": c, "behaviours": bs, "newState": new_state, "backends": backends}, timeout=3000)
+                                     {"consts": c, "behaviours": bs, "newState": new_state, "backends": enum_backends[sc]}, timeout=3000)
                 ctx.absorb(res, "prune", "TestPruneEnum")
                 vlib.log("engine TestPruneEnum %s: %d sequences, %.0fs" % (sc, len(bs), res["_wall_s"]))
     ctx.coverage["behaviours_conformance"] = total_conf
